@@ -7,6 +7,7 @@ sys.path.insert(0, os.path.dirname(os.path.abspath(__file__)))
 import checklib
 import vlib
 from checklib import Suite
+import txflow
 
 SIZES = [1, 2, 3, 4, 5, 6, 7, 8, 9, 15, 16, 17, 31, 32, 33]
 MODES = ["none", "all", "first", "last", "oddlast", "random"]
@@ -386,6 +387,8 @@ COVER = {}
 
 
 def suites(tier, rng, replay):
+    if replay and replay.get("suite") == "txflow":
+        return [txflow.suite(tier, rng, replay, txflow.make_spec("C04", "")["monitors"])]
     cases = []
     if replay:
         cases.append({"cfg": replay["cfg"], "ops": replay["ops"], "origin": "replay"})
@@ -434,7 +437,13 @@ def suites(tier, rng, replay):
                   "insync_cases": sum(1 for c in cases if c["cfg"].get("insync"))})
     for c in cases:
         c.pop("tags", None)
-    return [make_suite(cases)]
+    res = [make_suite(cases)]
+    if not replay:
+        # the node-level pipeline (conflicts, unsafe / cancelled states, restarts, delay checks around the blocks): its
+        # monitor's code 153 is "a relevant tx of a processed block has no notification carrying this block's proof
+        # and unconfirmed depth 0"
+        res.append(txflow.suite(tier, rng, replay, txflow.make_spec("C04", "")["monitors"]))
+    return res
 
 
 def extra(tier, rng, workdir):
@@ -451,6 +460,12 @@ REANNOUNCED = []
 
 
 def accept_failure(rec):
+    if rec.get("suite") == "txflow":
+        ops, st = rec.get("ops", []), rec.get("step", 0)
+        at_block = 0 <= st < len(ops) and ops[st][0] == "block"
+        if rec.get("checker") == "flow":
+            return (rec.get("expected") or [0])[0] in (153, 154)
+        return at_block
     # "reannounce" (code 431): an unconfirmed re-announcement of a transaction whose block was reverted is
     # delivered with that block's stale proof and depth 0.  The text of C04 speaks of the notification for a
     # transaction included in a block, so this is recorded in the evidence (and reported), not counted as C04.
@@ -470,6 +485,8 @@ def block_class(o):
 
 
 def keyfn(rec):
+    if rec.get("suite") == "txflow":
+        return txflow.keyfn(rec)
     ops = rec.get("ops", [])
     step = rec.get("step", 0)
     cls = block_class(ops[step]) if 0 <= step < len(ops) else "?"
@@ -489,6 +506,8 @@ def fails_same(rec, cfg, ops, workdir, n):
 
 def shrink(rec, workdir):
     """best-effort minimisation: cut after the failing step, drop earlier operations, shorten the block"""
+    if rec.get("suite") == "txflow":
+        return rec
     cfg, ops = rec["cfg"], [list(o) for o in rec["ops"]]
     best = rec
     budget = [24]
@@ -547,10 +566,11 @@ SPEC = {
     "assumptions": [
         "txids of a block are pairwise distinct (excludes the CVE-2012-2459 shape [a,b,c] ~ [a,b,c,c], which does hash to the same root)",
         "no two transactions of a history spend the same output (conflict handling is C05/C06); a txid is confirmed once",
+        "a block never holds a transaction confirmed in a block of the chain the node holds at that moment (hyp_valid follows the observed chain); an unconfirmed re-announcement carrying the stale proof of a reverted block (code 431) is recorded under reannounced_with_stale_proof_not_counted_as_C04, not counted as C04 (the property text speaks of the notification for a transaction included in a block)",
         "an injected output-fetch fault never concerns a transaction that also arrives unconfirmed; after a hard crash a previously delivered transaction may come back as new or as update (either kind accepted, the proof is checked all the same)",
         "the block implements wire.Block honestly (wire.MsgBlock / wire.MsgParseBlock): with a block type whose IsMerkleRootValid lies, ProcessBlock adds and announces the header before its own root comparison fails (modelled; theorem C04_second_gate_unreachable shows the honest types never get there)",
     ],
-    "rule": "histories of unconfirmed arrivals and blocks of 1..40 transactions (grid: sizes 1-9,15-17,31-33 x relevant subset none/all/first/last/last-of-odd-layer/random), relevant txs previously seen or not, bodies corrupted under an unchanged header (added/dropped/reordered/altered tx) followed or not by the good body, wire.MsgBlock and wire.MsgParseBlock, in sync or not; plus abort scenarios: an output-fetch fault cuts ProcessBlock short after its first pass recorded the new relevant txids in the per-height file (abort position x relevant positions x previously seen persisted / in memory only x in sync or not), graceful or hard restart on the same storage, the blocks processed again; distinct = distinct (cfg, ops)",
+    "rule": "histories of unconfirmed arrivals and blocks of 1..40 transactions (grid: sizes 1-9,15-17,31-33 x relevant subset none/all/first/last/last-of-odd-layer/random), relevant txs previously seen or not, bodies corrupted under an unchanged header (added/dropped/reordered/altered tx) followed or not by the good body, wire.MsgBlock and wire.MsgParseBlock, in sync or not; plus abort scenarios: an output-fetch fault cuts ProcessBlock short after its first pass recorded the new relevant txids in the per-height file (abort position x relevant positions x previously seen persisted / in memory only x in sync or not), graceful or hard restart on the same storage, the blocks processed again; and reorg histories: confirm -> competing header through the real handlers.HeadersHandler (revert of 1 or 2 blocks) -> re-announcement (or none, or the tx directly in the competing block) -> restart or not -> confirmation on the new branch at another index, also a tx reverted twice; distinct = distinct (cfg, ops)",
 }
 
 if __name__ == "__main__":
